@@ -13,7 +13,7 @@
     hints_table nonmatching_passthrough nonmatching_template_irrelevant
     declaration_order_pipeline first_match_wins identity_body_is_identity_partial
     matcher_state_in_sync output_wellnested select_keeps_nesting
-    lawful_single lawful_simple positional_not_lawful
+    lawful_single lawful_simple positional_not_lawful root_context_not_matched
 -/
 import Genshi.Lemmas.MatchSync
 import Genshi.Lemmas.MatchPipe
@@ -201,6 +201,16 @@ example : render 30 [.ev (S 'r'), .reg tId, .ev (S 'b'), .ev (T 'u'), .ev (E 'b'
 /-- inserting a never-matching template in the middle changes nothing -/
 example : render 30 [.ev (S 'r'), .reg tAB, .reg tNever, .reg tWrap, .ev (S 'a'), .ev (S 'b'), .ev (E 'b'),
     .ev (T 'u'), .ev (E 'a'), .ev (S 'b'), .ev (E 'b'), .ev (E 'r')] = render 30 doc1 := by decide
+
+/-- known finding C12-root-context: templates register after the root START has passed, so the
+    matcher of `root/a` never sees `<root>` and the `<a>` child of the root is not replaced
+    (the XSLT-pattern reading of the path matches it) -/
+theorem root_context_not_matched :
+    render 30 [.ev (.start ⟨[], ['r', 'o', 'o', 't']⟩ []),
+               .reg (mkMT (.simple [[['r', 'o', 'o', 't'], ['a']]]) [.ev (S 'x'), .ev (E 'x')] noHints),
+               .ev (S 'a'), .ev (E 'a'), .ev (.end_ ⟨[], ['r', 'o', 'o', 't']⟩)]
+      = some [.start ⟨[], ['r', 'o', 'o', 't']⟩ [], S 'a', E 'a', .end_ ⟨[], ['r', 'o', 'o', 't']⟩] := by
+  decide
 
 example : NeverFires (σ := PSt) { step := fun st _ _ => (st, false), st := {}, body := [] } := fun _ _ _ => rfl
 example : BodyOK tWrap.body := by
